@@ -28,11 +28,6 @@ M("c20-checkpoint-between-store-and-evict", "C20", FN, Q, "                cache
   "                cache_entry.move_to_end(key)\n                await checkpoint()\n                self._currsize += 1\n", ["R20-d"])
 M("c20-count-before-compute", "C20", FN, Q, "                self._misses += 1\n                value = await self.__wrapped__(*args, **kwargs)",
   "                self._misses += 1\n                self._currsize += 1\n                value = await self.__wrapped__(*args, **kwargs)", ["R20-d"])
-M("c20-stale-placeholder-test", "C20", FN, Q, "if (cached_value := cache_entry[key][0]) is initial_missing:", "if cached_value is initial_missing:", ["R20-c"])
-M("c20-compute-outside-lock", "C20", FN, Q,
-  "        async with lock:\n            # Check if another task filled the cache while we acquired the lock\n            if (cached_value := cache_entry[key][0]) is initial_missing:\n                self._misses += 1\n                value = await self.__wrapped__(*args, **kwargs)",
-  "        value = await self.__wrapped__(*args, **kwargs)\n        async with lock:\n            # Check if another task filled the cache while we acquired the lock\n            if (cached_value := cache_entry[key][0]) is initial_missing:\n                self._misses += 1",
-  ["R20-c"])
 M("c20-recompute-always", "C20", FN, Q, "            else:\n                # Another task filled the cache while we were waiting for the lock\n                self._hits += 1\n                cache_entry.move_to_end(key)\n                value = cast(T, cached_value)",
   "            else:\n                # Another task filled the cache while we were waiting for the lock\n                self._hits += 1\n                cache_entry.move_to_end(key)\n                value = await self.__wrapped__(*args, **kwargs)", ["R20-c"])
 M("c20-shared-lock", "C20", FN, Q, "        except KeyError:\n            # We're the first task to call this function\n            cached_value, lock, expires_at = (\n                initial_missing,\n                Lock(fast_acquire=not self._always_checkpoint),\n                None,\n            )",
@@ -53,10 +48,24 @@ M("c20-key-no-args", "C20", FN, Q, "        key: tuple[Any, ...] = args", "     
 M("c20-wrapped-drops-kwargs", "C20", FN, Q, "                value = await self.__wrapped__(*args, **kwargs)\n                expires_at", "                value = await self.__wrapped__(*args)\n                expires_at", ["R20-f"])
 M("c20-store-under-args", "C20", FN, Q, "                cache_entry[key] = value, None, expires_at", "                cache_entry[args] = value, None, expires_at", ["R20-f", "R20-a"])
 M("c20-bypass-late", "C20", FN, Q, "        if self._maxsize == 0:\n            value = await self.__wrapped__(*args, **kwargs)\n            self._misses += 1\n            return value\n", "", ["R20-e", "R20-c"])
-M("c20-reread-unguarded-other-key", "C20", FN, Q, "(cached_value := cache_entry[key][0]) is initial_missing", "(cached_value := cache_entry[args][0]) is initial_missing", ["R20-b"])
-
-N("c20-n-reread-two-steps", "C20", FN, Q, "            if (cached_value := cache_entry[key][0]) is initial_missing:", "            cached_value = cache_entry[key][0]\n            if cached_value is initial_missing:")
 N("c20-n-size-test-flipped", "C20", FN, Q, "self._currsize > self._maxsize:", "self._maxsize < self._currsize:")
 N("c20-n-evict-guard-continue", "C20", FN, Q, "                        if old_entry[1] is None:\n                            del cache_entry[old_key]\n                            self._currsize -= 1\n                            break\n",
   "                        if old_entry[1] is not None:\n                            continue\n\n                        del cache_entry[old_key]\n                        self._currsize -= 1\n                        break\n")
 N("c20-n-expiry-flipped", "C20", FN, Q, "            if expires_at is not None and current_time() >= expires_at:", "            if expires_at is not None and expires_at <= current_time():")
+
+# ---- re-read under the lock (structure after the F12 repair)
+REREAD = ("                entry = cache_entry.get(key)\n"
+          "                if entry is None or (entry[1] is not None and entry[1] is not lock):\n")
+M("c20-stale-placeholder-test", "C20", FN, Q, "if (cached_value := entry[0]) is initial_missing:", "if cached_value is initial_missing:", ["R20-c"])
+M("c20-compute-outside-lock", "C20", FN, Q,
+  "                if (cached_value := entry[0]) is initial_missing:\n                    self._misses += 1\n                    value = await self.__wrapped__(*args, **kwargs)",
+  "                value = await self.__wrapped__(*args, **kwargs)\n                if (cached_value := entry[0]) is initial_missing:\n                    self._misses += 1", ["R20-c"])
+M("c20-reread-other-key", "C20", FN, Q, "entry = cache_entry.get(key)", "entry = cache_entry.get(args)", ["R20-b"])
+M("c20-F12-revert-intolerant-reread", "C20", FN, Q,
+  REREAD + "                    # The result we were waiting for was stored and already evicted\n                    # again (and may be in the process of being recomputed by someone\n                    # else), so start over\n                    continue\n\n                if (cached_value := entry[0]) is initial_missing:",
+  "                if (cached_value := cache_entry[key][0]) is initial_missing:", ["R20-b", "R20-c"])
+M("c20-evicted-waiter-recomputes-under-stale-lock", "C20", FN, Q,
+  "                if entry is None or (entry[1] is not None and entry[1] is not lock):\n                    # The result we were waiting for was stored and already evicted\n                    # again (and may be in the process of being recomputed by someone\n                    # else), so start over\n                    continue\n\n                if (cached_value := entry[0]) is initial_missing:",
+  "                if entry is None or (cached_value := entry[0]) is initial_missing:", ["R20-c"])
+M("c20-retry-only-when-missing", "C20", FN, Q, "if entry is None or (entry[1] is not None and entry[1] is not lock):", "if entry is None:", ["R20-c"])
+N("c20-n-reread-two-steps", "C20", FN, Q, "                if (cached_value := entry[0]) is initial_missing:", "                if (cached_value := entry[0]) is not initial_missing:\n                    pass\n                if cached_value is initial_missing:")
